@@ -236,14 +236,31 @@ theorem tdel_absent (t : Leaves) (k : Slot) (h : (alook t k).isSome = false) : t
   intro e
   exact hk (List.mem_map.mpr ⟨p, hp, e⟩)
 
+theorem insertDesc_perm (e : Slot × Val) (l : List (Slot × Val)) : (insertDesc e l).Perm (e :: l) := by
+  induction l with
+  | nil => exact List.Perm.refl _
+  | cons x r ih =>
+    unfold insertDesc
+    split
+    · exact List.Perm.refl _
+    · exact (List.Perm.cons x ih).trans (List.Perm.swap e x r)
+
+theorem sortDesc_perm (l : List (Slot × Val)) : (sortDesc l).Perm l := by
+  unfold sortDesc
+  induction l with
+  | nil => exact List.Perm.refl _
+  | cons x r ih =>
+    simp only [List.foldr_cons]
+    exact (insertDesc_perm x _).trans (List.Perm.cons x ih)
+
 /-- `stateObject.commit` of one contract -/
 theorem applySlots_spec (cfg : Cfg) (t lv : Leaves) (slots : List (Slot × Val))
     (hnd : (slots.map (·.1)).Nodup) (hz : NoZero t) :
     (∀ k, tget (applySlots cfg t lv slots).1 k = (alook slots k).getD (tget t k)) ∧
     NoZero (applySlots cfg t lv slots).1 ∧
     (cfg.leafFix = true → lv = t → (applySlots cfg t lv slots).2 = (applySlots cfg t lv slots).1) := by
-  have hperm := List.mergeSort_perm slots (fun x y => decide (y.1 ≤ x.1))
-  have hnd' : ((slots.mergeSort (fun x y => decide (y.1 ≤ x.1))).map (·.1)).Nodup :=
+  have hperm := sortDesc_perm slots
+  have hnd' : ((sortDesc slots).map (·.1)).Nodup :=
     (hperm.map (·.1)).nodup_iff.mpr hnd
   refine ⟨?_, ?_, ?_⟩
   · intro k
@@ -254,7 +271,7 @@ theorem applySlots_spec (cfg : Cfg) (t lv : Leaves) (slots : List (Slot × Val))
     exact foldl_tput_noZero _ _ hz
   · intro hfix heq
     unfold applySlots
-    generalize slots.mergeSort (fun x y => decide (y.1 ≤ x.1)) = l
+    generalize sortDesc slots = l
     subst heq
     have : ∀ (l : List (Slot × Val)) (acc : Leaves × Leaves), acc.2 = acc.1 →
         (l.foldl (fun (acc : Leaves × Leaves) (e : Slot × Val) =>
